@@ -795,7 +795,10 @@ fn judge(ctx: &mut Ctx, kind: &str, k: usize, links: Vec<Link>, expect: Expect, 
     }
     // real files: current layout and, where expressible, the legacy layout
     let dir = crate::ser::scratch_dir();
-    let tag = format!("{:?}-{}", std::thread::current().id(), rng.next() % 1_000_000);
+    // one name per process for every network this worker writes (a file rewritten in place, run after run): a loader
+    // that remembers the path instead of reading the file returns an earlier network
+    let _ = rng.next();
+    let tag = "latest".to_string();
     if !has_nonfinite {
         let p = dir.join(format!("net-{tag}.yaml"));
         if std::fs::write(&p, serde_yaml::to_string(&net).unwrap_or_default()).is_ok() {
